@@ -256,35 +256,21 @@ Proof. intros t. unfold utc_to_wall, offset_at. simpl. lia. Qed.
 Lemma div_mul_exact : forall s, s mod DAY = 0 -> s / DAY * DAY = s.
 Proof. intros s H. pose proof (Z.div_mod s DAY). unfold DAY in *. lia. Qed.
 
-Definition text_ok1 (t : otext) : Prop := t <> Some 0%N.
-Definition texts_ok (m : meta) : Prop :=
-  text_ok1 (m_summary m) /\ text_ok1 (m_description m) /\ text_ok1 (m_uid m) /\ text_ok1 (m_location m).
-
-Lemma present_ok : forall t, text_ok1 t -> present t = t.
-Proof.
-  intros [n|] H; unfold present; [|reflexivity].
-  destruct (N.eqb n 0) eqn:E; [|reflexivity].
-  apply N.eqb_eq in E. subst. exfalso. apply H. reflexivity.
-Qed.
-
-Lemma meta_back : forall m b, texts_ok m -> m_allday m = b ->
+Lemma meta_back : forall m b, m_allday m = b ->
   mkMeta (present (m_summary m)) (present (m_description m)) (present (m_uid m))
          (present (m_location m)) b = m.
-Proof.
-  intros m b (H1 & H2 & H3 & H4) Hb. rewrite !present_ok by assumption.
-  destruct m; simpl in *; subst; reflexivity.
-Qed.
+Proof. intros m b Hb. unfold present. destruct m; simpl in *; subst; reflexivity. Qed.
 
 (* ------------------------------------------------------------------------------------------ *)
 (* (a) static events                                                                           *)
 
 Definition static_ok (s e : Z) (m : meta) : Prop :=
-  s <= e /\ texts_ok m /\ (m_allday m = true -> s mod DAY = 0 /\ e mod DAY = 0).
+  s <= e /\ (m_allday m = true -> s mod DAY = 0 /\ e mod DAY = 0).
 
 Theorem vevent_roundtrip_static : forall s e m,
   static_ok s e m -> roundtrip (Static (Some s) (Some e) m) = Some (Static (Some s) (Some e) m).
 Proof.
-  intros s e m (Hle & Ht & Hal).
+  intros s e m (Hle & Hal).
   unfold roundtrip, to_vevent, load_vevent, of_vevent, loaded_text.
   destruct (m_allday m) eqn:Ea; cbn.
   - destruct (Hal eq_refl) as [Hs He]. rewrite !div_mul_exact by assumption.
@@ -295,8 +281,7 @@ Proof.
 Qed.
 
 (* without the hypotheses the statement is false of the model: an all-day event whose bounds are
-   not midnights UTC comes back moved, an event without an end comes back empty, an empty text
-   comes back as None *)
+   not midnights UTC comes back moved, an event without an end comes back empty *)
 Definition m_none (ad : bool) : meta := mkMeta None None None None ad.
 Theorem vevent_roundtrip_static_refuted :
   (exists s e m, s <= e /\ roundtrip (Static (Some s) (Some e) m) <> Some (Static (Some s) (Some e) m)) /\
@@ -306,10 +291,6 @@ Proof.
   - exists 3600, 90000, (m_none true). split; [lia|]. vm_compute. discriminate.
   - exists 5, (m_none false). vm_compute. discriminate.
 Qed.
-
-Theorem empty_text_refuted :
-  exists m, roundtrip (Static (Some 0) (Some 1) m) <> Some (Static (Some 0) (Some 1) m).
-Proof. exists (mkMeta (Some 0%N) None None None false). vm_compute. discriminate. Qed.
 
 (* ------------------------------------------------------------------------------------------ *)
 (* re-creation of a stored pattern                                                             *)
@@ -336,38 +317,41 @@ Proof.
   rewrite Bool.andb_false_r. reflexivity.
 Qed.
 
-(* a pattern as RecurringPattern.__init__ builds it from a time of day or an anchor after
-   1970-01-02T00:00Z whose wall-clock reading gives start_seconds *)
+Lemma in_day : forall s, 0 <= s < DAY -> ((0 <=? s) && (s <? DAY)) = true.
+Proof. intros s H. apply andb_true_intro. split; [apply Z.leb_le|apply Z.ltb_lt]; lia. Qed.
+
+(* a pattern as RecurringPattern.__init__ builds it: a time of day in [0, DAY), or an anchor
+   whose own wall-clock reading (own_wall: the anchor's local date at start_seconds, which is what
+   a datetime start given inside a DST gap leaves behind, else the reading of the timestamp) shows
+   start_seconds, on one of the rule's plain weekdays *)
 Definition stored_ok (r : rule) : Prop :=
+  0 <= r_sod r < DAY /\
   match r_anchor r with
-  | None => 0 <= r_sod r < DAY
-  | Some a => DAY < a /\ r_sod r = wall_sod (utc_to_wall (r_zone r) a) /\
-              weekday_ok r (local_day (r_zone r) a)
+  | None => True
+  | Some a => wall_sod (own_wall (r_zone r) a (r_sod r)) = r_sod r /\
+              weekday_ok r (wall_day (own_wall (r_zone r) a (r_sod r)))
   end.
 
 Theorem readd_preserves : forall x m,
   stored_ok (x_rule x) -> readd (Pattern x m) = Some (Pattern x m).
 Proof.
-  intros x m H. unfold readd, stored_ok in *.
+  intros x m [Hr H]. unfold readd.
   destruct (r_anchor (x_rule x)) as [a|] eqn:Ea.
-  - destruct H as (Hd & Hs & Hw). unfold rp_init.
-    assert (Hlt : (DAY <? a) = true) by (apply Z.ltb_lt; exact Hd). rewrite Hlt.
-    rewrite rp_make_ok by exact Hw. rewrite <- Hs. rewrite <- Ea. rewrite mk_xrule_parts. reflexivity.
+  - destruct H as (Hs & Hw). rewrite in_day by exact Hr. unfold rp_init_dt.
+    rewrite rp_make_ok by exact Hw. rewrite Hs. rewrite <- Ea. rewrite mk_xrule_parts. reflexivity.
   - unfold rp_init.
     assert (Hlt : (DAY <? r_sod (x_rule x)) = false) by (apply Z.ltb_ge; lia). rewrite Hlt.
-    assert (Hr : ((0 <=? r_sod (x_rule x)) && (r_sod (x_rule x) <? DAY)) = true).
-    { apply andb_true_intro. split; [apply Z.leb_le|apply Z.ltb_lt]; lia. }
-    rewrite Hr. unfold rp_make. rewrite <- Ea. rewrite mk_xrule_parts. reflexivity.
+    rewrite in_day by exact Hr. unfold rp_make. rewrite <- Ea. rewrite mk_xrule_parts. reflexivity.
 Qed.
 
-(* without them it is false: an anchor on 1970-01-01 is re-created as a time of day *)
-Definition r_daily (anchor : option Z) (sod : Z) (z : zone) : rule :=
-  mkRule Daily 1 [] [] [] [] [] anchor sod 3600 z.
+(* the hypothesis is needed: a record whose start_seconds is not what its anchor reads (no
+   constructor call produces one) is re-created with the anchor's reading *)
+Definition z_plus1 : zone := mkZone 3600 [].
 Definition x_of (r : rule) : xrule := mkX r [] [] [] [] [] None.
 Theorem readd_preserves_refuted :
   exists x m, readd (Pattern x m) <> Some (Pattern x m) /\ readd (Pattern x m) <> None.
 Proof.
-  exists (x_of (r_daily (Some 43200) 43200 utc_zone)), (m_none false).
+  exists (x_of (mkRule Daily 1 [] [] [] [] [] (Some 1704096000) 100 3600 z_plus1)), (m_none false).
   split; vm_compute; discriminate.
 Qed.
 
@@ -380,20 +364,24 @@ Proof.
   unfold fold_of in H. apply Bool.negb_false_iff in H. apply Z.eqb_eq in H. exact H.
 Qed.
 
-Lemma stamp_zone : forall z t, zone_of_dt (stamp z t) = z.
+Lemma stamp_w_zone : forall z w, zone_of_dt (stamp_w z w) = z.
 Proof.
-  intros z t. unfold stamp. destruct (zone_eqb z utc_zone) eqn:E; simpl; [|reflexivity].
+  intros z w. unfold stamp_w. destruct (zone_eqb z utc_zone) eqn:E; simpl; [|reflexivity].
   apply zone_eqb_eq in E. congruence.
 Qed.
 
-Lemma stamp_wall : forall z t, wall_of (stamp z t) = utc_to_wall z t.
-Proof.
-  intros z t. unfold stamp. destruct (zone_eqb z utc_zone) eqn:E; simpl; [|reflexivity].
-  apply zone_eqb_eq in E. subst. rewrite utc_wall. reflexivity.
-Qed.
+Lemma stamp_w_wall : forall z w, wall_of (stamp_w z w) = w.
+Proof. intros z w. unfold stamp_w. destruct (zone_eqb z utc_zone); reflexivity. Qed.
 
-Lemma stamp_timed : forall z t, is_date (stamp z t) = false.
-Proof. intros z t. unfold stamp. destruct (zone_eqb z utc_zone); reflexivity. Qed.
+Lemma stamp_w_timed : forall z w, is_date (stamp_w z w) = false.
+Proof. intros z w. unfold stamp_w. destruct (zone_eqb z utc_zone); reflexivity. Qed.
+
+(* reading a printed wall-clock value back: the instant of that reading with fold = 0 *)
+Lemma stamp_w_ts : forall z w, ts_of (stamp_w z w) = wall_to_utc z w false.
+Proof.
+  intros z w. unfold stamp_w. destruct (zone_eqb z utc_zone) eqn:E; simpl; [|reflexivity].
+  apply zone_eqb_eq in E. subst. unfold wall_to_utc, wall_offset. simpl. lia.
+Qed.
 
 Lemma exdates_back : forall z l, Forall (fun t => fold_of z t = false) l ->
   loaded_exdates (map (stamp z) l) = l.
@@ -409,23 +397,22 @@ Proof.
   destruct v; simpl in *; try discriminate; try rewrite zone_eqb_refl; lia.
 Qed.
 
-(* a timed pattern (not flagged all-day) the round trip keeps: see the report for what each
-   hypothesis excludes *)
+(* a timed pattern (not flagged all-day) the round trip keeps *)
 Definition anchor_ok (r : rule) : Prop :=
+  0 <= r_sod r < DAY /\
   match r_anchor r with
-  | None => 0 <= r_sod r < DAY
+  | None => True
   | Some a =>
-    DAY < a /\                                              (* re-created from the int by MemoryTimeline *)
-    fold_of (r_zone r) a = false /\                         (* its wall-clock reading denotes it (no DST fold) *)
-    r_sod r = wall_sod (utc_to_wall (r_zone r) a) /\        (* start_seconds is that reading's time of day
-                                                               (fails for an anchor given inside a DST gap) *)
-    wall_day (utc_to_wall (r_zone r) a) <> phase_base (r_freq r) /\   (* not on the date time-of-day
-                                                                         patterns are written on *)
-    weekday_ok r (local_day (r_zone r) a)
+    let w := own_wall (r_zone r) a (r_sod r) in
+    wall_to_utc (r_zone r) w false = a /\       (* the printed reading denotes the anchor: it is not the
+                                                   second pass of a DST fold *)
+    wall_sod w = r_sod r /\                      (* as built by RecurringPattern.__init__ *)
+    wall_day w <> phase_base (r_freq r) /\       (* not on the date time-of-day patterns are written on *)
+    weekday_ok r (wall_day w)
   end.
 
 Definition timed_ok (x : xrule) (m : meta) : Prop :=
-  text_wf (parts_of x) = true /\ texts_ok m /\ m_allday m = false /\
+  text_wf (parts_of x) = true /\ m_allday m = false /\
   anchor_ok (x_rule x) /\ Forall (fun t => fold_of (r_zone (x_rule x)) t = false) (r_exdates (x_rule x)).
 
 Lemma base_wall : forall f sod, 0 <= sod < DAY ->
@@ -440,74 +427,49 @@ Qed.
 Theorem vevent_roundtrip_recurring : forall x m,
   timed_ok x m -> roundtrip (Pattern x m) = Some (Pattern x m).
 Proof.
-  intros x m (Hwf & Ht & Had & Ha & Hex).
+  intros x m (Hwf & Had & (Hr & Ha) & Hex).
   unfold roundtrip, to_vevent.
   rewrite text_parses by exact Hwf.
   assert (Hwd : writes_date (x_rule x) m = false) by (unfold writes_date; rewrite Had; reflexivity).
   rewrite Hwd.
-  unfold load_vevent, of_vevent, loaded_text. cbn [ve_dtstart ve_end ve_rrule ve_exdate ve_summary
-    ve_description ve_uid ve_location].
-  rewrite parts_of_vrecur_of.
-  rewrite exdates_back by exact Hex.
-  change (p_freq (parts_of x)) with (r_freq (x_rule x)).
-  unfold anchor_ok in Ha.
-  destruct (r_anchor (x_rule x)) as [a|] eqn:Ea.
-  - destruct Ha as (Hd & Hf & Hs & Hb & Hw).
-    rewrite duration_timed by apply stamp_timed.
-    rewrite stamp_wall, stamp_zone, stamp_ts by exact Hf. rewrite stamp_timed.
-    assert (Hne : (wall_day (utc_to_wall (r_zone (x_rule x)) a) =? phase_base (r_freq (x_rule x))) = false)
-      by (apply Z.eqb_neq; exact Hb).
-    rewrite Hne. unfold rp_init_dt.
-    rewrite rp_make_ok by exact Hw. rewrite <- Hs.
-    assert (Hx : mk_xrule (parts_of x) (r_exdates (x_rule x)) (Some a) (r_sod (x_rule x))
-                          (r_dur (x_rule x)) (r_zone (x_rule x)) = x)
-      by (rewrite <- Ea; apply mk_xrule_parts).
-    rewrite Hx. rewrite meta_back by (try assumption; symmetry; exact Had).
-    apply readd_preserves. unfold stored_ok. rewrite Ea. auto.
-  - destruct (base_wall (r_freq (x_rule x)) (r_sod (x_rule x)) Ha) as [Hbd Hbs].
-    assert (Hgen : forall v, wall_of v = phase_base (r_freq (x_rule x)) * DAY + r_sod (x_rule x) ->
-                             zone_of_dt v = r_zone (x_rule x) -> is_date v = false ->
-      match
-        match
-          (if wall_day (wall_of v) =? phase_base (r_freq (x_rule x))
-           then rp_init (parts_of x) (wall_sod (wall_of v))
-                  (duration_of (mkVE v (EDuration (r_dur (x_rule x))) (Some (vrecur_of (parts_of x)))
-                     (map (fun t => stamp (r_zone (x_rule x)) t) (r_exdates (x_rule x)))
-                     (present (m_summary m)) (present (m_description m)) (present (m_uid m))
-                     (present (m_location m)))) (zone_of_dt v) (r_exdates (x_rule x))
-           else rp_init_dt (parts_of x) (wall_of v) (ts_of v)
-                  (duration_of (mkVE v (EDuration (r_dur (x_rule x))) (Some (vrecur_of (parts_of x)))
-                     (map (fun t => stamp (r_zone (x_rule x)) t) (r_exdates (x_rule x)))
-                     (present (m_summary m)) (present (m_description m)) (present (m_uid m))
-                     (present (m_location m)))) (zone_of_dt v) (r_exdates (x_rule x)))
-        with
-        | Some x0 => Some (Pattern x0 (mkMeta (present (m_summary m)) (present (m_description m))
-                                              (present (m_uid m)) (present (m_location m)) (is_date v)))
-        | None => None
-        end
-      with Some it => readd it | None => None end = Some (Pattern x m)).
-    { intros v Hw Hz Hdt. rewrite Hw, Hz, Hdt, Hbd, Hbs, Z.eqb_refl.
-      rewrite duration_timed by exact Hdt.
-      unfold rp_init.
+  assert (Hgen : forall w,
+     wall_day w = phase_base (r_freq (x_rule x)) /\ wall_sod w = r_sod (x_rule x) /\ r_anchor (x_rule x) = None \/
+     (exists a, r_anchor (x_rule x) = Some a /\ w = own_wall (r_zone (x_rule x)) a (r_sod (x_rule x))) ->
+     load_vevent (mkVE (stamp_w (r_zone (x_rule x)) w) (EDuration (r_dur (x_rule x)))
+                       (Some (vrecur_of (parts_of x)))
+                       (map (fun t => stamp (r_zone (x_rule x)) t) (r_exdates (x_rule x)))
+                       (present (m_summary m)) (present (m_description m)) (present (m_uid m))
+                       (present (m_location m))) = Some (Pattern x m)).
+  { intros w Hw. unfold load_vevent, of_vevent, loaded_text.
+    cbn [ve_dtstart ve_end ve_rrule ve_exdate ve_summary ve_description ve_uid ve_location].
+    rewrite parts_of_vrecur_of. rewrite exdates_back by exact Hex.
+    change (p_freq (parts_of x)) with (r_freq (x_rule x)).
+    rewrite duration_timed by apply stamp_w_timed.
+    rewrite stamp_w_wall, stamp_w_zone, stamp_w_ts, stamp_w_timed.
+    destruct Hw as [(Hbd & Hbs & Ea)|(a & Ea & Hw)].
+    - rewrite Hbd, Hbs, Z.eqb_refl. unfold rp_init.
       assert (Hlt : (DAY <? r_sod (x_rule x)) = false) by (apply Z.ltb_ge; lia). rewrite Hlt.
-      assert (Hr : ((0 <=? r_sod (x_rule x)) && (r_sod (x_rule x) <? DAY)) = true).
-      { apply andb_true_intro. split; [apply Z.leb_le|apply Z.ltb_lt]; lia. }
-      rewrite Hr. unfold rp_make. rewrite <- Ea. rewrite mk_xrule_parts.
-      rewrite meta_back by (try assumption; symmetry; exact Had).
-      apply readd_preserves. unfold stored_ok. rewrite Ea. exact Ha. }
-    destruct (zone_eqb (r_zone (x_rule x)) utc_zone) eqn:Ez.
-    + apply Hgen; [reflexivity| |reflexivity]. simpl. apply zone_eqb_eq in Ez. congruence.
-    + apply Hgen; reflexivity.
+      rewrite in_day by exact Hr. unfold rp_make. rewrite <- Ea. rewrite mk_xrule_parts.
+      rewrite meta_back by exact Had.
+      apply readd_preserves. unfold stored_ok. rewrite Ea. auto.
+    - rewrite Ea in Ha. cbv zeta in Ha. rewrite <- Hw in Ha. destruct Ha as (Hts & Hs & Hb & Hwk).
+      assert (Hne : (wall_day w =? phase_base (r_freq (x_rule x))) = false) by (apply Z.eqb_neq; exact Hb).
+      rewrite Hne. unfold rp_init_dt. rewrite rp_make_ok by exact Hwk. rewrite Hts, Hs.
+      rewrite <- Ea. rewrite mk_xrule_parts. rewrite meta_back by exact Had.
+      apply readd_preserves. unfold stored_ok. rewrite Ea. rewrite <- Hw. auto. }
+  destruct (r_anchor (x_rule x)) as [a|] eqn:Ea.
+  - apply Hgen. right. exists a. auto.
+  - apply Hgen. left. destruct (base_wall (r_freq (x_rule x)) (r_sod (x_rule x)) Hr). auto.
 Qed.
 
 (* all-day patterns: whole days from midnight UTC, written with a DATE start *)
 Definition allday_ok (x : xrule) (m : meta) : Prop :=
   let r := x_rule x in
-  text_wf (parts_of x) = true /\ texts_ok m /\ m_allday m = true /\
+  text_wf (parts_of x) = true /\ m_allday m = true /\
   r_zone r = utc_zone /\ r_sod r = 0 /\ r_dur r mod DAY = 0 /\
   match r_anchor r with
   | None => True
-  | Some a => DAY < a /\ a mod DAY = 0 /\ a / DAY <> phase_base (r_freq r) /\ weekday_ok r (a / DAY)
+  | Some a => a mod DAY = 0 /\ a / DAY <> phase_base (r_freq r) /\ weekday_ok r (a / DAY)
   end /\
   Forall (fun t => t mod DAY = 0) (r_exdates r).
 
@@ -524,17 +486,22 @@ Proof.
   intros. unfold duration_of, end_dt. cbn. pose proof (div_mul_exact dur H). lia.
 Qed.
 
+Lemma own_wall_utc_midnight : forall a, a mod DAY = 0 -> own_wall utc_zone a 0 = a.
+Proof.
+  intros a H. unfold own_wall. rewrite utc_wall. unfold mk_wall, wall_day.
+  rewrite Z.add_0_r. rewrite div_mul_exact by exact H.
+  destruct (wall_to_utc utc_zone a (fold_of utc_zone a) =? a); reflexivity.
+Qed.
+
 Theorem vevent_roundtrip_recurring_allday : forall x m,
   allday_ok x m -> roundtrip (Pattern x m) = Some (Pattern x m).
 Proof.
-  intros x m (Hwf & Ht & Had & Hz & Hs & Hdur & Ha & Hex).
+  intros x m (Hwf & Had & Hz & Hs & Hdur & Ha & Hex).
   unfold roundtrip, to_vevent.
   rewrite text_parses by exact Hwf.
   assert (Hwd : writes_date (x_rule x) m = true).
   { unfold writes_date. rewrite Had, Hz, Hs, Hdur. reflexivity. }
-  rewrite Hwd. rewrite Hz. unfold stamp. rewrite zone_eqb_refl.
-  assert (Hmap : map (fun t => DDate (t / DAY)) (r_exdates (x_rule x)) =
-                 map (fun t : Z => DDate (t / DAY)) (r_exdates (x_rule x))) by reflexivity.
+  rewrite Hwd. rewrite Hz, Hs. unfold stamp, stamp_w. rewrite zone_eqb_refl.
   unfold load_vevent, of_vevent, loaded_text.
   destruct (r_anchor (x_rule x)) as [a|] eqn:Ea;
     cbn [ve_dtstart ve_end ve_rrule ve_exdate ve_summary ve_description ve_uid ve_location
@@ -542,7 +509,8 @@ Proof.
     rewrite parts_of_vrecur_of; rewrite exdates_back_date by exact Hex;
     rewrite duration_date by exact Hdur;
     change (p_freq (parts_of x)) with (r_freq (x_rule x)).
-  - destruct Ha as (Hd & Hm & Hb & Hw).
+  - destruct Ha as (Hm & Hb & Hw).
+    rewrite own_wall_utc_midnight by exact Hm.
     rewrite div_mul_exact by exact Hm.
     assert (Hne : (wall_day a =? phase_base (r_freq (x_rule x))) = false)
       by (apply Z.eqb_neq; exact Hb).
@@ -553,34 +521,40 @@ Proof.
     assert (Hx : mk_xrule (parts_of x) (r_exdates (x_rule x)) (Some a) (r_sod (x_rule x))
                           (r_dur (x_rule x)) (r_zone (x_rule x)) = x)
       by (rewrite <- Ea; apply mk_xrule_parts).
-    rewrite Hx. rewrite meta_back by (try assumption; symmetry; exact Had).
-    apply readd_preserves. unfold stored_ok. rewrite Ea, Hz.
-    unfold local_day. rewrite utc_wall. split; [exact Hd|]. split; [|exact Hw].
-    rewrite Hs. unfold wall_sod. symmetry. exact Hm.
-  - rewrite Hs. rewrite Z.add_0_r. rewrite Z.div_mul by (unfold DAY; lia).
+    rewrite Hx. rewrite meta_back by exact Had.
+    apply readd_preserves. unfold stored_ok. rewrite Ea, Hz, Hs.
+    rewrite own_wall_utc_midnight by exact Hm.
+    split; [unfold DAY; lia|]. split; [unfold wall_sod; exact Hm|exact Hw].
+  - rewrite Z.add_0_r. rewrite Z.div_mul by (unfold DAY; lia).
     unfold wall_day, wall_sod. rewrite Z.div_mul by (unfold DAY; lia). rewrite Z.eqb_refl.
     rewrite Z.mod_mul by (unfold DAY; lia).
     unfold rp_init. cbn [Z.ltb Z.leb Z.compare DAY andb].
     unfold rp_make. rewrite <- Hz. rewrite <- Hs at 1. rewrite <- Ea. rewrite mk_xrule_parts.
-    rewrite meta_back by (try assumption; symmetry; exact Had).
-    apply readd_preserves. unfold stored_ok. rewrite Ea, Hs. unfold DAY. lia.
+    rewrite meta_back by exact Had.
+    apply readd_preserves. unfold stored_ok. rewrite Ea, Hs. unfold DAY. split; [lia|exact I].
 Qed.
 
 (* without the hypotheses the statement is false of the model (each witness is written and read
    back, but as a different pattern):
    1. an all-day-flagged pattern outside UTC comes back without the flag;
-   2. an anchor given as a wall-clock time inside a DST gap (start_seconds is not the time of day
-      its timestamp reads as) comes back recurring an hour later;
-   3. a first occurrence in the repeated hour of a DST fold comes back an hour earlier *)
-Definition z_plus1 : zone := mkZone 3600 [].
+   2. a first occurrence in the repeated hour of a DST fold comes back an hour earlier;
+   3. a pattern anchored on the date time-of-day patterns are written on comes back as a time-of-day
+      pattern (same occurrences, other parameters) *)
 Definition z_gap : zone := mkZone 0 [(1000000, 3600)].        (* clocks go forward at t = 1000000 *)
 Definition z_fold : zone := mkZone 3600 [(1000000, 0)].       (* clocks go back at t = 1000000 *)
 Definition changed (it : item) : Prop := roundtrip it <> Some it /\ roundtrip it <> None.
 Theorem vevent_roundtrip_recurring_refuted :
   changed (Pattern (x_of (mkRule Daily 1 [] [] [] [] [] None 0 86400 z_plus1)) (m_none true)) /\
-  changed (Pattern (x_of (mkRule Daily 1 [] [] [] [] [] (Some 1001800) 51400 3600 z_gap)) (m_none false)) /\
-  changed (Pattern (x_of (mkRule Daily 1 [] [] [] [] [] (Some 1001800) 51400 3600 z_fold)) (m_none false)).
+  changed (Pattern (x_of (mkRule Daily 1 [] [] [] [] [] (Some 1001800) 51400 3600 z_fold)) (m_none false)) /\
+  changed (Pattern (x_of (mkRule Daily 1 [] [] [] [] [] (Some 43200) 43200 3600 utc_zone)) (m_none false)).
 Proof. repeat split; vm_compute; discriminate. Qed.
+
+(* an anchor given inside a DST gap (start_seconds 14:16:40 on a day whose clock jumps from
+   13:46:40 to 14:46:40; the timestamp reads 15:16:40) is kept *)
+Example gap_anchor_kept :
+  let it := Pattern (x_of (mkRule Daily 1 [] [] [] [] [] (Some 1001800) 51400 3600 z_gap)) (m_none false) in
+  roundtrip it = Some it.
+Proof. vm_compute. reflexivity. Qed.
 
 (* ------------------------------------------------------------------------------------------ *)
 (* the hypotheses are satisfiable                                                              *)
@@ -593,15 +567,15 @@ Proof. vm_compute. reflexivity. Qed.
    instance excluded *)
 Definition x_example : xrule :=
   x_of (mkRule Weekly 2 [(0, None)] [] [] [] [1705305600] (Some 1704096000) 32400 3600 z_plus1).
-Definition m_example : meta := mkMeta (Some 5%N) None (Some 7%N) None false.
+Definition m_example : meta := mkMeta (Some 5%N) None (Some 0%N) None false.
 Example timed_ok_example : timed_ok x_example m_example.
 Proof.
   unfold timed_ok. split; [vm_compute; reflexivity|].
-  split; [unfold texts_ok, text_ok1; cbn; repeat split; intro H; discriminate H|].
   split; [reflexivity|]. split.
-  - unfold anchor_ok. cbn [x_example x_of x_rule r_anchor].
+  - unfold anchor_ok. cbn [x_example x_of x_rule r_anchor r_sod].
+    split; [unfold DAY; lia|]. cbv zeta.
     split; [vm_compute; reflexivity|]. split; [vm_compute; reflexivity|].
-    split; [vm_compute; reflexivity|]. split; [vm_compute; intro H; discriminate H|].
+    split; [vm_compute; intro H; discriminate H|].
     right. vm_compute. reflexivity.
   - cbn. repeat constructor.
 Qed.
@@ -610,7 +584,6 @@ Definition x_allday : xrule := x_of (mkRule Weekly 1 [(0, None)] [] [] [] [17046
 Example allday_ok_example : allday_ok x_allday (m_none true).
 Proof.
   unfold allday_ok. split; [vm_compute; reflexivity|].
-  split; [unfold texts_ok, text_ok1; cbn; repeat split; intro H; discriminate H|].
   split; [reflexivity|]. split; [reflexivity|]. split; [reflexivity|]. split; [vm_compute; reflexivity|].
   split; [exact I|]. cbn. repeat constructor.
 Qed.
@@ -618,6 +591,11 @@ Qed.
 Example static_ok_example : static_ok 1704067200 1704153600 (mkMeta (Some 3%N) None None None true).
 Proof.
   unfold static_ok. split; [lia|].
-  split; [unfold texts_ok, text_ok1; cbn; repeat split; intro H; discriminate H|].
   intros _. split; vm_compute; reflexivity.
+Qed.
+
+Example stored_ok_example : stored_ok (x_rule x_example).
+Proof.
+  unfold stored_ok. cbn [x_example x_of x_rule r_anchor r_sod r_zone].
+  split; [unfold DAY; lia|]. split; [vm_compute; reflexivity|]. right. vm_compute. reflexivity.
 Qed.
